@@ -727,6 +727,180 @@ def suite_dask_coords(ctx):
                      + "; ".join(probs[:4]), inp, {"n_problems": len(probs)}, tags={"family": "dask-coords-split"}, size=H + W + len(str(chunks)))
 
 
+def suite_data_slice(ctx):
+    """the same slice of the parent's coordinate arrays, asked from the parent itself: `get_proj_coords(data_slice=...)` and
+    `get_lonlats(data_slice=...)` of an area (legacy and future class), with every mixture of full (in every spelling) / partial /
+    negative / out-of-range / None-bounded unit-step row and column slices, given as a (rows, columns) tuple, as a bare row slice or
+    not at all, as numpy arrays and as dask arrays (`chunks=`), with and without dtype.  The result must have numpy's shape
+    `coords[rows, columns]`, hold the same slice of the unsliced numpy coordinates and agree with the coordinates of `area[rows,
+    columns]` asked the same way.  A StackedAreaDefinition (members separated by a gap) asked for rows 0..k and a column slice must
+    give the row-wise concatenation of its members' coordinates restricted to those rows and columns.  (Own random stream.)"""
+    import random
+
+    import dask
+    from pyresample.geometry import StackedAreaDefinition
+    r = random.Random(f"c10-data-slice-{ctx.seed}")
+    laea = {"proj": "laea", "lat_0": 52.0, "lon_0": 10.0, "ellps": "WGS84"}
+    merc = {"proj": "merc", "lon_0": 3.0, "ellps": "WGS84"}
+
+    def axis_slice(n):
+        """(kind, slice) selecting at least one index of an axis of length n"""
+        kind = r.choice(["full", "full", "partial", "partial", "negative", "open", "single"])
+        a = r.randrange(0, n)
+        b = r.randrange(a + 1, n + 1)
+        if kind == "full":
+            s = r.choice(_full_spellings(n) + [slice(None, None, 1), slice(0, n, 1), slice(-n, n), slice(None, n + 5, None)])
+        elif kind == "partial":
+            s = slice(a, r.choice([b, b, n + 2]), r.choice([None, 1]))
+        elif kind == "negative":
+            s = slice(a - n, None if b == n else b - n)
+        elif kind == "open":
+            s = r.choice([slice(a, None), slice(None, b), slice(a or None, None), slice(None, b - n if b < n else None)])
+        else:
+            s = slice(a, a + 1)
+        return ("full" if s.indices(n)[:2] == (0, n) else kind), s
+
+    def close(a, b, tol):
+        return a.shape == b.shape and bool(np.allclose(a, b, rtol=0, atol=tol, equal_nan=True))
+
+    for it in range(36 if ctx.quick else 400):
+        H, W = r.randrange(1, 14), r.randrange(1, 14)
+        future = r.random() < 0.2
+        kind = r.choice(["degrees", "km", "arbitrary"])
+        if kind == "degrees":
+            proj, px = LL, r.choice([0.25, 0.5, 1.0])
+            x0, y0 = r.randrange(-100, 100) / 4, r.randrange(-200, 200) / 4
+            ext = (x0, y0, x0 + W * px, y0 + H * px)
+        elif kind == "km":
+            proj, px = laea, r.choice([1000.0, 250.0, 3000.0])
+            x0, y0 = r.randrange(-400, 400) * 1000.0, r.randrange(-400, 400) * 1000.0
+            ext = (x0, y0, x0 + W * px, y0 + H * px)
+        else:
+            proj = r.choice([merc, laea])
+            x0, y0 = r.uniform(-3e5, 3e5), r.uniform(1e3, 3e5)
+            ext = (x0, y0, x0 + W * r.uniform(100, 40000), y0 + H * r.uniform(100, 40000))
+        area = _area_future(proj, W, H, ext) if future else _area(proj, W, H, ext)
+        scale = float(max(1, max(abs(v) for v in ext)))
+        with warnings.catch_warnings():
+            warnings.simplefilter("ignore")
+            ref_x, ref_y = area.get_proj_coords()
+            ref_lon, ref_lat = area.get_lonlats()
+            proj4 = area.crs.to_proj4()[:60]
+        for _k in range(3 if ctx.quick else 6):
+            ky, ys = axis_slice(H)
+            kx, xs = axis_slice(W)
+            form = r.choice(["tuple", "tuple", "tuple", "rows-only", "whole"])
+            if form == "rows-only":
+                kx, xs, ds = "full", slice(None), ys
+            elif form == "whole":
+                ky, ys, kx, xs, ds = "full", slice(None), "full", slice(None), None
+            else:
+                ds = (ys, xs)
+            chunks = r.choice([None, None, 4096, 4, (3, 5), r.randrange(1, 9), (r.randrange(1, 9), r.randrange(1, 9)), -1, (H, W)])
+            dtype = r.choice([None, None, np.float32, np.float64])
+            dkw = {} if dtype is None else {"dtype": dtype}
+            tol_xy = (1e-9 if dtype is not np.float32 else 2e-7) * scale
+            tol_ll = 1e-9 if dtype is not np.float32 else 5e-5
+            want = [v[ys, xs] for v in (ref_x, ref_y, ref_lon, ref_lat)]
+            inp = {"class": "future" if future else "legacy", "proj": proj4, "extent": [float(v) for v in ext], "shape": [H, W],
+                   "data_slice": None if ds is None else [_sl3(ys)] if form == "rows-only" else [_sl3(ys), _sl3(xs)], "form": form,
+                   "chunks": list(chunks) if isinstance(chunks, tuple) else chunks, "dtype": None if dtype is None else np.dtype(dtype).name}
+            ctx.case("data-slice.area", (inp["class"], str(ext), H, W, str(inp["data_slice"]), str(chunks), str(inp["dtype"])), nontrivial=ds is not None,
+                     sample={"input": inp} if ky == "full" and kx != "full" and chunks is not None else None)
+            ctx.count(f"data_slice.rows_{ky}.cols_{kx}." + ("dask" if chunks is not None else "numpy"))
+            probs, site = [], "AreaDefinition.get_proj_coords"
+            try:
+                with warnings.catch_warnings(), dask.config.set(scheduler="synchronous"):
+                    warnings.simplefilter("ignore")
+                    lazy = list(area.get_proj_coords(data_slice=ds, chunks=chunks, **dkw)) + list(area.get_lonlats(data_slice=ds, chunks=chunks, **dkw))
+                    lazy_shapes = [tuple(v.shape) for v in lazy]
+                    is_dask = [hasattr(v, "dask") for v in lazy]
+                    got = [np.asarray(v) for v in lazy]
+                    child = area[ys, xs]
+                    sub = [np.asarray(v) for v in list(child.get_proj_coords(chunks=chunks, **dkw)) + list(child.get_lonlats(chunks=chunks, **dkw))]
+            except Exception as e:  # noqa
+                ctx.fail(site, f"coordinates asked with data_slice: raised {type(e).__name__}: {str(e)[:160]}", inp, size=H + W)
+                continue
+            names = ("projection x", "projection y", "longitudes", "latitudes")
+            for i, nm in enumerate(names):
+                tol = tol_xy if i < 2 else tol_ll
+                bad = None
+                if lazy_shapes[i] != want[i].shape or got[i].shape != want[i].shape:
+                    bad = f"{nm}: shape {lazy_shapes[i]} (computed {got[i].shape}) is not numpy's {want[i].shape} for coords[rows, columns]"
+                elif not close(got[i], want[i], tol):
+                    bad = f"{nm}: values are not the same slice of the unsliced coordinates (max difference {float(np.nanmax(np.abs(got[i] - want[i]))):.3g})"
+                elif not close(got[i], sub[i], 2 * tol):
+                    bad = f"{nm}: differ from the coordinates of area[rows, columns] asked with the same chunks and dtype"
+                elif is_dask[i] != (chunks is not None):
+                    bad = f"{nm}: {'a dask array' if is_dask[i] else 'not a dask array'} although chunks={chunks}"
+                elif dtype is not None and got[i].dtype != np.dtype(dtype):
+                    bad = f"{nm}: dtype {got[i].dtype} instead of the requested {np.dtype(dtype).name}"
+                if bad:
+                    probs.append(bad)
+                    if i >= 2 and len(probs) == 1:
+                        site = "AreaDefinition.get_lonlats"
+            if probs:
+                ctx.fail(site, "the parent's coordinates asked with data_slice=(rows, columns) are not the [rows, columns] slice of its coordinate arrays: "
+                         + "; ".join(probs[:4]), inp, {"n_problems": len(probs), "lazy_shapes": [list(s) for s in lazy_shapes], "numpy_shape": list(want[0].shape)},
+                         tags={"family": "data-slice", "rows": ky, "cols": kx, "dask": chunks is not None}, size=H + W + len(str(chunks)))
+        # --- a stack of two or three members separated by gaps: rows 0..k of the stack, any column slice
+        if future or H < 3:
+            continue
+        cuts = sorted(r.sample(range(1, H), 2))
+        with warnings.catch_warnings():
+            warnings.simplefilter("ignore")
+            parts = [area[:cuts[0], :], area[cuts[0] + 1:, :]] if cuts[1] + 1 >= H or cuts[1] - cuts[0] < 2 or r.random() < 0.5 else \
+                [area[:cuts[0], :], area[cuts[0] + 1:cuts[1], :], area[cuts[1] + 1:, :]]
+            stack = StackedAreaDefinition(*parts)
+            members = [d.get_lonlats() for d in stack.defs]
+        if len(stack.defs) != len(parts):
+            ctx.fail("geometry.StackedAreaDefinition", "parts separated by a gap were merged", {"extent": [float(v) for v in ext], "shape": [H, W], "cuts": cuts}, size=H)
+            continue
+        all_lon, all_lat = np.vstack([m[0] for m in members]), np.vstack([m[1] for m in members])
+        SH = stack.height
+        for _k in range(2 if ctx.quick else 4):
+            stop = r.choice([SH, SH, SH, SH + 2, r.randrange(1, SH + 1)])
+            rows = slice(0, stop, r.choice([None, 1]))
+            if r.random() < 0.5:
+                rows = axis_slice(SH)[1]       # any unit-step row slice of the whole stack: open, negative, starting inside a later member
+            kx, xs = axis_slice(W)
+            heights = [d.height for d in stack.defs]
+            chunks = r.choice([None, 4096, 3, (2, 3), r.randrange(1, 9), (tuple(heights), r.randrange(1, 9)), -1])
+            dtype = r.choice([None, None, np.float32])
+            dkw = {} if dtype is None else {"dtype": dtype}
+            tol_ll = 1e-9 if dtype is not np.float32 else 5e-5
+            want = (all_lon[rows, xs], all_lat[rows, xs])
+            inp = {"class": "stack", "proj": proj4, "extent": [float(v) for v in ext], "shape": [H, W], "member_rows": heights,
+                   "data_slice": [_sl3(rows), _sl3(xs)], "chunks": [list(c) if isinstance(c, tuple) else c for c in chunks] if isinstance(chunks, tuple) else chunks,
+                   "dtype": None if dtype is None else np.dtype(dtype).name}
+            ctx.case("data-slice.stack", (str(ext), H, W, str(heights), str(inp["data_slice"]), str(chunks), str(inp["dtype"])), nontrivial=True,
+                     sample={"input": inp} if kx != "full" and chunks is not None else None)
+            ctx.count(f"data_slice.stack.rows_{'all' if rows.indices(SH)[:2] == (0, SH) else 'top' if rows.indices(SH)[0] == 0 else 'inner'}.cols_{kx}." + ("dask" if chunks is not None else "numpy"))
+            try:
+                with warnings.catch_warnings(), dask.config.set(scheduler="synchronous"):
+                    warnings.simplefilter("ignore")
+                    lz = stack.get_lonlats(data_slice=(rows, xs), chunks=chunks, **dkw)
+                    shapes = [tuple(v.shape) for v in lz]
+                    got = [np.asarray(v) for v in lz]
+            except Exception as e:  # noqa
+                ctx.fail("geometry.StackedAreaDefinition.get_lonlats", f"lon/lats of a stack asked with data_slice: raised {type(e).__name__}: {str(e)[:160]}", inp, size=H + W)
+                continue
+            probs = []
+            for nm, g, w_, sh in zip(("longitudes", "latitudes"), got, want, shapes):
+                if sh != w_.shape or g.shape != w_.shape:
+                    probs.append(f"{nm}: shape {sh} is not {w_.shape}, the shape of the row-wise concatenation of the members' coordinates cut to [rows, columns]")
+                elif not close(g, w_, tol_ll):
+                    probs.append(f"{nm}: values are not the row-wise concatenation of the members' coordinates cut to [rows, columns]")
+            if probs:
+                ctx.fail("geometry.StackedAreaDefinition.get_lonlats", "lon/lats of a stack asked with data_slice=(rows, columns): " + "; ".join(probs), inp,
+                         {"shapes": [list(s) for s in shapes], "expected_shape": list(want[0].shape)},
+                         tags={"family": "data-slice-stack", "cols": kx, "dask": chunks is not None}, size=H + W + len(str(chunks)))
+
+
+def _sl3(s):
+    return _sl(s) + (["none" if s.step is None else s.step])
+
+
 def run(ctx):
     suite_slices(ctx)
     suite_split_concat(ctx)
@@ -735,3 +909,4 @@ def run(ctx):
     suite_coord_histories(ctx)
     suite_slices_future(ctx)
     suite_dask_coords(ctx)
+    suite_data_slice(ctx)
